@@ -103,6 +103,7 @@ def make_case(rng, F, P, T, D, pats, old, new, kind, via, values="random", dtype
                 aff["a"].append(a)
                 aff["b"].append(b)
                 aff["c"].append(c)
+            still_v = [rng.gauss(0, 1) * scale for _ in range(D)]      # values == "still": the point never moves, its confidence varies
             for f in range(F):
                 o = pats[p][t][f]
                 ci = (f * P + p) * T + t
@@ -115,6 +116,8 @@ def make_case(rng, F, P, T, D, pats, old, new, kind, via, values="random", dtype
                 for d in range(D):
                     if values == "affine" and o:
                         v = a[d] * f + b[d]
+                    elif values == "still" and o:
+                        v = still_v[d]
                     else:
                         v = rng.gauss(0, 1) * scale          # also under the mask: garbage that must not leak
                     data[ci * D + d] = v
@@ -153,8 +156,8 @@ def gen_structured(rng, tier):
             new = old
     kind = rng.choice(KINDS)
     via = rng.choice(["body", "pose"])
-    values = rng.choice(["random", "random", "affine"])
-    dtype = rng.choice(["f8", "f8", "f8", "f4"]) if values == "random" else "f8"
+    values = rng.choice(["random", "random", "affine", "random", "still"])
+    dtype = rng.choice(["f8", "f8", "f8", "f4"]) if values != "affine" else "f8"
     return make_case(rng, F, P, T, D, pats, old, new, kind, via, values, dtype)
 
 
